@@ -5,7 +5,9 @@ functions, lemmas: the prelude, written independently of the code).  Directive
 lines pull items out of the repository source as text and annotate them:
 
   //@const  file=src/x.rs name=NAME                  copy a const item (X1)
-  //@struct file=src/x.rs name=NAME                  copy a struct (X1: attributes, docs, #[br(temp)] fields dropped)
+  //@struct file=src/x.rs name=NAME [keep=f1,f2]     copy a struct (X1: attributes, docs, #[br(temp)] fields dropped; X1b keep=: only the named
+                                                     fields are kept - every fn extracted for that struct must then carry selfonly=f1,f2, which checks
+                                                     that its body uses `self` only as `self.f1` / `self.f2`)
   //@fn file=src/x.rs name=NAME [impl=REGEX] [nth=K] copy a function and annotate it, until //@end:
       (with macro=M invfile=src/y.rs : the function is the instantiation `M!(NAME, ...)` found in invfile of the
        macro_rules! M defined in file - rule X7: textual substitution of the $parameters by the invocation's arguments;
@@ -261,6 +263,13 @@ class FnSplice:
             self.extra.append({"rule": "X7", "what": what})
         else:
             src = open(path).read()
+        if p.get("selfonly"):
+            # side condition of X1b: every use of `self` in the function is `self.<kept field>`
+            f0 = rs.find_fn(src, p["name"], p.get("impl"), int(p["nth"]) if "nth" in p else None)
+            bodym = rs.mask(src)[f0["open"]:f0["close"] + 1]
+            allowed = "|".join(re.escape(x) for x in p["selfonly"].split(","))
+            if re.search(r"\bself\b(?!\s*\.\s*(%s)\b)" % allowed, bodym) or re.search(r"\bSelf\b", bodym):
+                raise ScanError("X1b not applicable: %s uses `self` other than through %s" % (p["name"], p["selfonly"]))
         if p.get("localmacros"):
             src, done, names = expand_local_macros(src, p["name"], p.get("impl"), int(p["nth"]) if "nth" in p else None)
             self.extra.append({"rule": "X9", "what": "local macros %s expanded at %d sites" % (", ".join(names), len(done)), "fn": p["name"]})
@@ -531,6 +540,36 @@ def build(template_path, repo):
                         if not re.search(r"\b%s\b" % re.escape(dname), attrs):
                             raise ScanError("LOST-ANCHOR %s %s no longer derives %s" % (kind, kv["name"], dname))
                     item = "#[derive(%s)]\n" % ", ".join(kv["derive"].split(",")) + item
+                if "keep" in kv:
+                    # X1b: keep only the named fields of a struct.  Sound for functions that never mention another field and never use
+                    # `self` as a whole value - checked on every extracted fn that declares `selfonly=` (below).
+                    keep = kv["keep"].split(",")
+                    bm = rs.mask(item)
+                    bo_ = bm.index("{")
+                    bc_ = rs.match_brace(bm, bo_)
+                    fields, depth, fcur = [], 0, bo_ + 1
+                    for k in range(bo_ + 1, bc_):
+                        ch = bm[k]
+                        if ch in "([{<":
+                            depth += 1
+                        elif ch in ")]}>":
+                            depth -= 1
+                        elif ch == "," and depth == 0:
+                            fields.append(item[fcur:k].strip())
+                            fcur = k + 1
+                    if item[fcur:bc_].strip():
+                        fields.append(item[fcur:bc_].strip())
+                    kept = []
+                    for f_ in fields:
+                        fm = re.match(r"(pub(\s*\([^)]*\))?\s+)?([A-Za-z_][A-Za-z0-9_]*)\s*:", f_)
+                        if not fm:
+                            raise ScanError("X1b not applicable: field `%s` of struct %s" % (f_, kv["name"]))
+                        if fm.group(3) in keep:
+                            kept.append(f_)
+                    if len(kept) != len(keep):
+                        raise ScanError("LOST-ANCHOR struct %s no longer has the fields %s" % (kv["name"], ",".join(keep)))
+                    item = item[:bo_ + 1] + "\n    " + ",\n    ".join(kept) + ",\n" + item[bc_:]
+                    info.setdefault("x78", []).append({"rule": "X1b", "what": "struct %s reduced to the fields %s (the extracted functions mention no other field)" % (kv["name"], ",".join(keep))})
                 if "vis" in kv:  # optional: rewrite visibility (annotation only; types unchanged)
                     item = re.sub(r"^(pub\s*(\([^)]*\))?\s*)?", kv["vis"].replace("_", " ") + " ", item, count=1)
                 out.append(item)
